@@ -105,3 +105,116 @@ def q_c03_reconcile_validation(bodies):
 QUERIES = {
     "C03": [q_c03_reconcile_validation],
 }
+
+
+# ------------------------------------------------------------------------------------------------
+# C10: the accepting side can always report its outcome
+# ------------------------------------------------------------------------------------------------
+
+def q_c10_bob_outcome(bodies):
+    """C10: `BobState::run` is an async fn; its MIR is the coroutine state machine (loops, yields).
+    Abstraction decided by the solver: control-flow reachability over the REAL block graph with one
+    tracked fact — is `self.progress` `Some`?  (`Option::take(&mut self.progress)` clears it, an
+    assignment of `Some(..)` to the field sets it; every branch condition is left free, suspension
+    points continue at their resume block).  Query: can the state machine reach its final `return`
+    with `progress == None` while `BobState::into_outcome` (called unconditionally by
+    `net::handle_connection` after `run`) unwraps it?  A satisfiable query is confirmed by the native
+    witness d6 (real BobState, store actor gone)."""
+    import re as _re
+    name = "c10_bob_outcome"
+    hits = find_body(bodies, r"net::codec::<impl at src/net/codec\.rs:\d+:\d+: \d+:\d+>::run::\{closure#0\}$", r"Poll<Result<keys::NamespaceId, net::AcceptError>>")
+    outs = find_body(bodies, r"net::codec::<impl at src/net/codec\.rs:\d+:\d+: \d+:\d+>::into_outcome$")
+    if len(hits) != 1 or len(outs) != 1:
+        return dict(name=name, property="C10", verdict="inconclusive", detail="bodies not found uniquely (%d, %d)" % (len(hits), len(outs)), functions=[])
+    body, outb = hits[0], outs[0]
+    # does into_outcome panic on None?  (it does iff it calls Option::unwrap/expect on the progress field)
+    out_text = "\n".join(st for b in outb.blocks.values() for st in b)
+    unwraps = bool(_re.search(r"Option::<sync::SyncOutcome>::(unwrap|expect)\(", out_text))
+    # classify blocks
+    FIELD = r"\(\(\*_\d+\)\.2: std::option::Option<sync::SyncOutcome>\)"
+    some_locals = set()
+    for b in body.blocks.values():
+        for st in b:
+            m = _re.match(r"^(_\d+) = std::option::Option::<sync::SyncOutcome>::Some\(", st)
+            if m:
+                some_locals.add(m.group(1))
+    takes_ref = {}
+    for b in body.blocks.values():
+        for st in b:
+            m = _re.match(r"^(_\d+) = &mut " + FIELD + ";$", st)
+            if m:
+                takes_ref[m.group(1)] = True
+    effect = {}      # block -> 'none' | 'some' | None
+    resume = {}      # suspend state -> resume block
+    final_blocks, suspend_blocks = [], {}
+    bb0 = body.blocks["bb0"][-1]
+    for k, tgt in _re.findall(r"(\d+): (bb\d+)", bb0):
+        resume[int(k)] = tgt
+    for bn, b in body.blocks.items():
+        eff = None
+        for st in b:
+            m = _re.match(r"^" + FIELD + r" = move (_\d+);$", st)
+            if m:
+                eff = "some" if m.group(1) in some_locals else "unknown"
+            m = _re.match(r"^_\d+ = std::option::Option::<sync::SyncOutcome>::take\(move (_\d+)\)", st)
+            if m and m.group(1) in takes_ref:
+                eff = "none"
+            m = _re.match(r"^discriminant\(\(\*_\d+\)\) = (\d+);$", st)
+            if m and b[-1].startswith("return"):
+                k = int(m.group(1))
+                if k == 1:
+                    final_blocks.append(bn)
+                elif k >= 3:
+                    suspend_blocks[bn] = k
+        effect[bn] = eff
+    if not final_blocks or "unknown" in effect.values():
+        return dict(name=name, property="C10", verdict="inconclusive", detail="could not classify the coroutine's blocks (final=%s)" % final_blocks, functions=[body.name])
+    # edges
+    edges = []
+    for bn in body.blocks:
+        if bn in suspend_blocks:
+            edges.append((bn, resume.get(suspend_blocks[bn])))
+            continue
+        for s2 in body.successors(bn):
+            if s2 in body.blocks:
+                edges.append((bn, s2))
+    # SMT (propositional): is there an inductive invariant — a set of (block, flag) facts that contains
+    # the start, is closed under every edge of the real block graph, and excludes "final return with
+    # progress == None"?  sat => such an invariant exists => unreachable; unsat => reachable.
+    L = ["(set-logic QF_UF)"]
+    names = {}
+    for bn in body.blocks:
+        for f in ("S", "N"):
+            v = "inv_%s_%s" % (bn, f)
+            names[(bn, f)] = v
+            L.append("(declare-const %s Bool)" % v)
+    start = resume.get(0, "bb1")
+
+    def post(bn, f):
+        e = effect[bn]
+        return "S" if e == "some" else ("N" if e == "none" else f)
+
+    L.append("(assert %s)" % names[(start, "S")])
+    for (a2, b2) in edges:
+        if b2 is None:
+            continue
+        for f in ("S", "N"):
+            L.append("(assert (=> %s %s))" % (names[(a2, f)], names[(b2, post(a2, f))]))
+    for fb in final_blocks:
+        for f in ("S", "N"):
+            if post(fb, f) == "N":
+                L.append("(assert (not %s))" % names[(fb, f)])
+    L.append("(check-sat)")
+    verdict, detail = solve("\n".join(L), timeout=120)
+    reach_none = {"unsat": True, "sat": False}.get(verdict)
+    if reach_none is None:
+        return dict(name=name, property="C10", verdict="inconclusive", detail="solver: %s" % verdict, functions=[body.name, outb.name])
+    violated = reach_none and unwraps
+    return dict(name=name, property="C10", verdict="violated" if violated else "holds",
+                detail="final return reachable with progress=None: %s (blocks=%d, edges=%d, take sites=%d, restore sites=%d); into_outcome unwraps the field: %s"
+                % (reach_none, len(body.blocks), len(edges), sum(1 for e in effect.values() if e == "none"), sum(1 for e in effect.values() if e == "some"), unwraps),
+                functions=[body.name, outb.name], queries=1, witness="d6",
+                check_message="the accepting side can always report its outcome after run returned")
+
+
+QUERIES["C10"] = [q_c10_bob_outcome]
